@@ -545,7 +545,12 @@ pub fn t(id: i64, r: Res) -> Res {
     r
 }
 /// `lazy_branches(false)` with threads: the value of the branch expression is the job the thread runs
+#[cfg(not(feature = "nosend"))]
 pub fn job(id: i64, r: Res) -> impl FnOnce() -> Res + Send + 'static {
+    move || t(id, r)
+}
+#[cfg(feature = "nosend")]
+pub fn job(id: i64, r: Res) -> impl FnOnce() -> Res + 'static {
     move || t(id, r)
 }
 /// `??` on Result
